@@ -21,7 +21,8 @@ Subj == IF cur.case.shape.kind = "payload" THEN cur.case.shape.at \o "/" \o cur.
 
 \* value equality is demanded where the literal is the text itself; URLs are normalised by the URL parser, URIs are embedded
 NeedsEqual(src) == src \in {"name", "enum"}
-OccBad(p, o) == \/ o.cls \in {"code", "char"} /\ p.src # "name"
+\* a numeral at a facet is meant to be code: there it must be a Rust integer literal of the same value
+OccBad(p, o) == \/ o.cls \in {"code", "char"} /\ p.src # "name" /\ ~(p.cls \in NumClasses /\ o.cls = "code" /\ o.value_equal)
                 \/ o.cls = "str" /\ NeedsEqual(p.src) /\ ~o.value_equal
 ProbeViol(p) == {V("marker_is_data", Subj, "string literal = original | comment" \o (IF p.src = "name" THEN " | identifier" ELSE ""), p.occ[i].cls) :
                    i \in {i \in 1..Len(p.occ) : OccBad(p, p.occ[i])}}
